@@ -3,6 +3,7 @@ package c09
 import (
 	"os"
 	"runtime/debug"
+	"strconv"
 	"testing"
 
 	"github.com/zerx-lab/wordZero/pkg/document"
@@ -17,7 +18,7 @@ func TestMain(m *testing.M) {
 		// half of the run on a loaded machine
 		debug.SetGCPercent(800)
 	}
-	kit.TestMain(m, 8000, 150000)
+	kit.TestMain(m, 7200, 150000)
 }
 
 // v is a selector that resolves to the valid index k (k < size), n to the size itself (see (*exec).sel).
@@ -25,11 +26,14 @@ func v(k int) int { return 32*k + 3 }
 
 const n = 0
 
+// e is a selector that resolves to the k-th valid index from the end (e(0) = the last one).
+func e(k int) int { return endBase + k }
+
 func grid(r, c int) [][]string {
 	out := make([][]string, r)
 	for i := range out {
 		for j := 0; j < c; j++ {
-			out[i] = append(out[i], string(rune('a'+i))+string(rune('0'+j)))
+			out[i] = append(out[i], string(rune('a'+i))+strconv.Itoa(j))
 		}
 	}
 	return out
@@ -121,17 +125,81 @@ func fixed() []Case {
 			{K: "unmerge", I: []int{v(0), v(0)}},
 			{K: "clear"},
 		}},
+		// sizes past the single digits (positions, spans and row counts of two digits)
+		// a 10-wide merged block in a table of twelve columns: a row inserted inside it, its start row deleted, vertical merges right of the
+		// wide cell (physical index 1 = grid column 10), unmerging 10 and 11 columns, column edits at two-digit positions while a cell is spanned
+		{Via: "create", Rows: 4, Cols: 12, Width: 9000, Data: grid(4, 12), Ops: []Op{
+			{K: "merger", I: []int{v(0), v(2), v(0), v(9)}},
+			{K: "insrow", I: []int{v(1), 24}, S: []string{"p", "q"}},
+			{K: "get", I: []int{v(1), v(0)}},
+			{K: "delrow", I: []int{v(0)}},
+			{K: "mergev", I: []int{v(0), e(0), v(1)}},
+			{K: "mergev", I: []int{v(0), v(2), v(1)}},
+			{K: "unmerge", I: []int{v(1), v(0)}},
+			{K: "mergeh", I: []int{e(0), v(1), e(0)}},
+			{K: "inscol", I: []int{v(10), 1000, 1}, S: []string{"x"}},
+			{K: "delcol", I: []int{v(11)}},
+			{K: "unmerge", I: []int{e(0), v(1)}},
+			{K: "iter"},
+			{K: "copy"},
+		}},
+		// column edits, cell writes and ranges at positions 10 and beyond on a plain table of twelve columns, then a merge of a whole row of ten
+		{Via: "add", Rows: 3, Cols: 12, Width: 8640, Data: grid(3, 12), Ops: []Op{
+			{K: "inscol", I: []int{v(10), 1000, 2}, S: []string{"i"}},
+			{K: "inscol", I: []int{n, 1200, 1}, S: []string{"j"}},
+			{K: "delcol", I: []int{v(11)}},
+			{K: "settext", I: []int{v(2), v(10)}, S: []string{"w"}},
+			{K: "get", I: []int{v(1), e(0)}},
+			{K: "range", I: []int{v(0), v(9), v(2), e(0)}},
+			{K: "delcols", I: []int{v(10), e(0)}},
+			{K: "mergeh", I: []int{v(1), v(0), e(0)}},
+			{K: "approw", I: []int{1}, S: []string{"r"}},
+			{K: "insrow", I: []int{v(1), 24}, S: []string{"s", "t"}},
+			{K: "mergev", I: []int{v(0), v(1), v(10)}},
+			{K: "delcols", I: []int{v(0), v(9)}},
+			{K: "unmerge", I: []int{v(2), v(0)}},
+			{K: "delcols", I: []int{v(0), v(9)}},
+			{K: "iter"},
+		}},
+		// a vertical merge over thirteen rows, ten of its rows deleted in one call (the continuation below must be repaired), rows inserted into it
+		{Via: "add", Rows: 14, Cols: 2, Width: 6000, Data: grid(14, 2), Ops: []Op{
+			{K: "mergev", I: []int{v(1), e(0), v(0)}},
+			{K: "delrows", I: []int{v(1), v(10)}},
+			{K: "get", I: []int{v(1), v(0)}},
+			{K: "approw", I: []int{2}, S: []string{"a", "b"}},
+			{K: "insrow", I: []int{v(2), 12}, S: []string{"c"}},
+			{K: "mergev", I: []int{v(0), e(0), v(1)}},
+			{K: "delrow", I: []int{v(0)}},
+			{K: "unmerge", I: []int{v(0), v(1)}},
+			{K: "delrows", I: []int{v(1), e(1)}},
+			{K: "iter"},
+		}},
+		// row edits and cell access at row indexes 10 and 11, a vertical merge over twelve rows, the copy continued as the table under test
+		{Via: "create", Rows: 12, Cols: 3, Width: 6000, Data: grid(12, 3), Ops: []Op{
+			{K: "settext", I: []int{v(11), v(2)}, S: []string{"z"}},
+			{K: "get", I: []int{v(10), v(1)}},
+			{K: "insrow", I: []int{v(10), 2}, S: []string{"k", "l", "m"}},
+			{K: "delrow", I: []int{v(11)}},
+			{K: "mergev", I: []int{v(0), v(11), v(1)}},
+			{K: "insrow", I: []int{v(11), 1}},
+			{K: "delrows", I: []int{v(0), v(9)}},
+			{K: "rowheightrange", I: []int{v(0), e(0), 20}},
+			{K: "eachcol", I: []int{v(1)}},
+			{K: "copy", F: 1},
+			{K: "delrow", I: []int{v(0)}},
+		}},
 	}
 }
 
 func TestC09(t *testing.T) {
 	kit.Main(t, kit.Spec[Case]{
 		ID: "C09", Level: "exploration",
-		Rule: "a start table - four in five from CreateTable/AddTable (1-6 x 1-6; widths derived, given or of the wrong count; initial data absent, full, ragged, oversize), one in five read by OpenFromMemory from a .docx the harness writes itself (1-5 grid columns x 1-5 rows; in 8 of 10 with ragged rows: some rows hold fewer cells than the grid, none more, one row is full; with or without pre-existing w:gridSpan cells, a vertical merge written as restart/continue/bare w:vMerge, a nested table, cells without w:tcPr, two-paragraph and run-less cells) - and a history of 1-30 calls over the row/column/cell/merge/unmerge/row-property/copy/iterator API. Positions are state-independent selectors resolved against the current size: every valid index, -1, -2, n, n+1, inverted and single-cell ranges, data shorter than / equal to / longer than the table. Before each call the table is deep-copied; the call is judged against that copy: no panic; error => deep-equal to the copy; success => grid invariants, accessors agree with the structure, and post = f(copy, arguments) for the plain rows-by-columns model (exact on rectangular tables and for row edits, plain-row merges and cell-level calls in any state; invariants + untouched-cell rules where the API leaves the addressed cell open on merged rows). On a state whose rows do not span the grid before the call (ragged) a grid invariant is demanded after the call only if it held before it, a row made by the call must span the grid, and column edits are judged by the plain model in every row that reaches the position when no cell spans two columns. A failure attributed to an open finding rolls the table back to the copy and the history continues. non-trivial = >= 2 successful structural edits, >= 1 successful merge or nested table, >= 1 rejected out-of-range call; distinct = distinct sequence of (call kind, outcome ok/err/kf, rectangular or not before the call)",
+		Rule: "a start table - four in five from CreateTable/AddTable (1-6 x 1-6, one in six past the single digits: 7-21 columns x 1-5 rows, 31-65 columns x 1-3 rows, or 7-65 rows x 1-4 columns; widths derived, given or of the wrong count; initial data absent, full, ragged, oversize), one in five read by OpenFromMemory from a .docx the harness writes itself (1-5 grid columns x 1-5 rows, one in seven 10-14 grid columns x 2-4 rows with cells spanning most of a row - w:gridSpan of two digits -, consecutive rows of one layout and a vertical merge of the widest cell; in 8 of 10 with ragged rows: some rows hold fewer cells than the grid, none more, one row is full; with or without pre-existing w:gridSpan cells (also the explicit w:gridSpan=1), a vertical merge written as restart/continue/bare w:vMerge, a nested table, cells without w:tcPr, two-paragraph and run-less cells) - and a history of 1-30 calls over the row/column/cell/merge/unmerge/row-property/copy/iterator API. Positions are state-independent selectors resolved against the current size: every valid index (counted from the start or from the end), -1, -2, n, n+1, inverted and single-cell ranges, broad ranges (the whole row / column but for at most two positions at either end, whatever the size), data shorter than / equal to / longer than the table. Hand-written histories run first (bounds of the plain model, merge/unmerge round trips, a ragged opened table, and four on tables of twelve columns / twelve to fourteen rows: a 10-wide merged block edited by row and column calls, positions 10+, a vertical merge over ten and more rows cut by DeleteRows). Before each call the table is deep-copied; the call is judged against that copy: no panic; error => deep-equal to the copy; success => grid invariants, accessors agree with the structure, and post = f(copy, arguments) for the plain rows-by-columns model (exact on rectangular tables and for row edits, plain-row merges and cell-level calls in any state; invariants + untouched-cell rules where the API leaves the addressed cell open on merged rows). On a state whose rows do not span the grid before the call (ragged) a grid invariant is demanded after the call only if it held before it, a row made by the call must span the grid, and column edits are judged by the plain model in every row that reaches the position when no cell spans two columns. A failure attributed to an open finding rolls the table back to the copy and the history continues. non-trivial = >= 2 successful structural edits, >= 1 successful merge or nested table, >= 1 rejected out-of-range call; distinct = distinct sequence of (call kind, outcome ok/err/kf, rectangular or not before the call)",
 		Gen:  genCase, Run: run, Findings: findings, Fixed: fixed,
 		MustSee: map[string]float64{"history:successful-merge": 0.4, "history:merge-and-no-rollback": 0.25, "history:copy": 0.1, "pos:n": 0.3, "pos:n+1": 0.3,
 			"pos:negative": 0.3, "range:inverted": 0.1, "history:nested-table": 0.1, "history:non-rectangular-state": 0.2, "data:longer-than-table": 0.05,
-			"start:opened-ragged": 0.1, "start:opened-merged": 0.03, "ragged:rejected-structural-edit": 0.08, "ragged:accepted-structural-edit": 0.08},
+			"start:opened-ragged": 0.1, "start:opened-merged": 0.03, "ragged:rejected-structural-edit": 0.08, "ragged:accepted-structural-edit": 0.08,
+			"start:>=10-columns": 0.05, "start:>=10-rows": 0.015, "start:opened-with-gridSpan>=10": 0.005, "history:structural-edit-on-a-state-with-a-cell-spanning>=10": 0.01},
 		Assumptions: []string{
 			"a table has at least one row and every row at least one cell (the API's own documented refusal to delete the last row/column); a call whose row/column/range lies outside the table under every reading (negative, >= rows, >= grid width, inverted) must be refused, a call inside under every reading must be accepted, anything else (data longer than the table, single-cell merge ranges, a column index between a merged row's physical cell count and the grid width) may go either way",
 			"on a row with a horizontally merged cell the API does not say whether a column index counts physical cells or grid columns: cells right of a spanned cell are only held to the invariants and to 'at most one cell of that row changed'",
